@@ -55,6 +55,9 @@ ASSUMPTIONS = ['Serializer/Deserializer: buffer sizes below 2^64; the size_t com
                'beyond that the expected digest is python hashlib (second reference) and independence of the cuts is C19_md5_split; Base64 / hex / URL decoders on long input '
                'are answered by the round-trip and rejection theorems (closed forms), the encoders by the models (Base64 chunk-wise, proved equal), up to 2^20 bytes; '
                'bytes of an output buffer behind the returned count (b64.dec2 rest=, si.buf buf=) are M-class: inside the capacity given, not promised by the API',
+               'Base64 in place: the output pointer is at or before the start of the text (behind it the call overwrites characters it has not read: outside the contract, '
+               'counterexample theorem, bad-op in the tie); serializer self-append: the caller reserved pos + k first in vector mode (otherwise the source range dies inside '
+               'vector::resize — the rule of vector::insert with iterators into the vector itself; decided outside the statement, observed as an M line only)',
                'AES: key and block are exactly 16 bytes (the model reads missing bytes as 0, the real code would read out of bounds)']
 RULE = ('one case = 1..12 codec operations from props/C19/plugin.py gen(): encode/decode/round-trip ops on byte strings of '
         'length 0..70 (all 256 byte values), capacities exact/one-short/zero/roomy, 64-bit values around every length boundary '
@@ -73,7 +76,11 @@ RULE = ('one case = 1..12 codec operations from props/C19/plugin.py gen(): encod
         'serializer\'s own output, append after fetch, set_pos to the current / previous / end position), url.host2 (two parses into the same Url::Host object). '
         'Round 9 (lesson h): long inputs in compact form `long <codec> … rep:<pattern>:<n> | prng:<seed>:<n>` of 2^16±2, 131070..131080, 2^18, 2^20, 2^24 bytes '
         '(all ff, ff00, 00ff, fffe, 80, pseudo-random) through checksum8/16, crc16/32 (also chained), MD5 (one update and cuts around 2^16 / 2^20), and 2^16±1, 2^17±1, '
-        '131075, 2^20 bytes through Base64 enc/dec (incl. one bad character), hex enc/dec, URL enc/dec, serializer vector / fixed-buffer raw blocks; in BOTH tiers')
+        '131075, 2^20 bytes through Base64 enc/dec (incl. one bad character), hex enc/dec, URL enc/dec, serializer vector / fixed-buffer raw blocks; in BOTH tiers. '
+        'Round 10 (aliased buffers): b64.decip = Base64 Decode with text and output in ONE exactly sized heap block (in place and output 1..3 bytes before the text; '
+        'every length class, pads, invalid / high / NUL / pad characters at every position of a quad, exact / short / roomy capacity), ser.self = Serializer::append '
+        'with the source inside the serializer\'s own written data (fixed buffer; vector reserved / exactly fitting / k = 0; the unreserved growing call runs in a child '
+        'process and only its AddressSanitizer end is recorded, as an M line)')
 LEVEL_TEXT = ('Lean 4 theorems over hand-written models of the nine codec sources, all for every input: round trips (Base64 both '
               'decoders, scalable integer for every 64-bit value and capacity, hex strings all three readers, serializer for every '
               'field sequence, URL both modes, AES-128 invcipher∘cipher), advertised sizes, no out-of-bounds outcome for every input '
@@ -88,6 +95,9 @@ LEVEL_TEXT = ('Lean 4 theorems over hand-written models of the nine codec source
               'accumulator widths (round 9): CalcCheckSum16 with its uint32_t / CalcCheckSum8 with its uint16_t accumulator = the one\'s-complement sums for every length, '
               'the fold-once variants exact up to 131074 / 257 bytes and refuted at 131075 / 258 bytes of 0xFF, Array evaluators for 16 MiB inputs = the list models, '
               'Base64 encoder chunk-wise = encoder, unkeyed AES object: invcipher∘cipher = id for every content of w; '
+              'aliased buffers (round 10): Base64 decode over ONE shared memory with the output at or before the text = decode into a separate buffer, for every memory '
+              'content / text / capacity, nothing outside the output window changes for ANY placement, an output pointer behind the text start refuted; serializer self-append '
+              '= append of a copy whenever the storage stays in place (fixed buffer, or capacity covers pos + k), otherwise the source is read after vector::resize freed it; '
               'tables regenerated from the source on every run; tied to the code on every '
               'run by differential execution under ASan+UBSan')
 LEVEL_NOTE = ('trusted: Lean kernel, hand-written models + differential tie (coverage bounded by the generator, measured in '
@@ -954,6 +964,77 @@ def gen_state_derived(tier):
                'des.setpos 3', 'des.endian %s' % ('l' if en == 'b' else 'b'), 'des.int 4', 'des.setpos 3', 'des.endian %s' % en, 'des.int 4', 'des.nocopy 1', 'des.nocopy 1']
 
 
+# ------------------------------------------------------------------------------------------ aliased buffers (round 10)
+# Base64 decode with text and output in ONE heap block (`b64.decip pre text post dst cap`: the block is pre ++ text ++ post, the output pointer is
+# block + dst, the text pointer block + |pre|): in place (dst = |pre|) and output 1..3 bytes before the text (an output pointer behind the start of the
+# text is outside the contract — counterexample theorem — and a bad-op on both sides); valid texts of every length class, pads, invalid characters at every quad position, exact /
+# short / roomy capacities. Serializer self-append (`ser.self off k r`): source = own written data, raw and vector mode, reserved / unreserved.
+def _ip_ops(text, extra_post=b''):
+    n = len(text)
+    pads = 2 if text[-2:] == b'==' else 1 if text[-1:] == b'=' else 0
+    dl = n // 4 * 3 - pads if n and n % 4 == 0 else 0
+    ops = []
+    for pre, dst_rel in ((b'', 0), (b'\x11\x22\x33', 0), (b'\x11\x22\x33', -1), (b'\x11\x22\x33', -3), (b'\x11\x22', -2)):
+        dst = len(pre) + dst_rel
+        for cap in sorted(set([dl, max(dl - 1, 0), dl + 1, n])):
+            room = max(0, dst + cap - len(pre) - n)
+            post = (extra_post + b'\xee' * room)[:max(room, len(extra_post))]
+            ops.append('b64.decip %s %s %s %d %d' % (hx(pre), hx(text), hx(post), dst, cap))
+    return ops
+
+
+def gen_alias(tier):
+    ops = []
+    datas = [b'A', b'AB', b'ABC', b'ABCD', b'ABCDE', b'ABCDEF', bytes(range(250, 256)) + bytes(range(0, 7)), b'\xff' * 9, b'\x00' * 10, bytes(range(48))]
+    for x in datas:
+        ops += _ip_ops(_b64.b64encode(x), b'\x77')
+    # invalid / high / pad characters at each position of the second quad, text not a multiple of four, empty text
+    for pos in range(4, 8):
+        for bad in (0x40, 0x80, 0xff, 0x3d, 0x00):
+            t = bytearray(b'QUJDREVG'); t[pos] = bad
+            ops += _ip_ops(bytes(t))[:8]
+    ops += _ip_ops(b'QUJDR')[:4] + ['b64.decip 1122 - 33 0 0', 'b64.decip 1122 - 33 2 1', 'b64.decip - 51554a44 - 0 5', 'b64.decip - 51554a44 0000 2 3', 'b64.decip 11 51554a44 00 2 3']
+    # the output of an in-place decode re-encoded text decoded in place again (own previous output as input)
+    x = _b64.b64encode(_b64.b64encode(b'in place twice!'))
+    ops += _ip_ops(x)[:4]
+    # two of three run at a memory placement (lesson c): block start at alignment 0..7, right-aligned against the redzone / left-aligned
+    ops = [o + ' @%s%d%d' % ('RL'[i % 2], i % 8, (i * 5 + 3) % 8) if i % 3 else o for i, o in enumerate(ops)]
+    for c in _batched(ops, 40):
+        yield c
+    for en in 'bl':
+        for mode in ('ser.raw 24 %s' % en, 'ser.vec - %s' % en, 'ser.vec a1a2a3a4a5a6a7a8a9aa %s' % en):
+            yield [mode, 'ser.self 0 0 0', 'ser.int 4 16909060', 'ser.self 0 4 1', 'ser.self 2 4 1', 'ser.self 0 0 0', 'ser.self 12 0 0', 'ser.self 0 12 0', 'ser.self 0 12 1',
+                   'ser.self 23 1 1', 'ser.self 24 0 1', 'ser.self 0 1 0', 'ser.self 1 24 1', 'ser.self 0 25 0', 'ser.bytes 0b0c', 'ser.self 20 5 0', 'ser.self 20 5 1',
+                   'ser.view %s' % en, 'des.int 4', 'des.int 4', 'des.bytes 4', 'des.skip 12', 'des.int 2']
+    yield ['ser.self 0 0 0', 'ser.vec 0102 b', 'ser.self 0 1 1', 'ser.self 1 0 1', 'ser.int 2 772', 'ser.self 0 2 2', 'ser.self 00 2 1', 'ser.self 0 65536 1', 'ser.self 3 0 0',
+           'ser.self 1 1 1', 'ser.self 0 3 0', 'ser.self 0 3 1']
+
+
+def gen_alias_random(rng, ops):
+    k = rng.randrange(3)
+    if k == 0:
+        x = rbytes(rng, rng.randrange(1, 40))
+        t = bytearray(_b64.b64encode(x))
+        if rng.random() < 0.3: t[rng.randrange(len(t))] = rng.randrange(256)
+        pre = rbytes(rng, rng.randrange(0, 5)); dst = rng.randrange(0, len(pre) + 1)
+        cap = rng.choice([len(x), len(x) + 1, max(len(x) - 1, 0), len(t)])
+        room = max(0, dst + cap - len(pre) - len(t))
+        ops.append('b64.decip %s %s %s %d %d' % (hx(pre), hx(t), hx(rbytes(rng, room + rng.randrange(3))), dst, cap))
+    else:
+        init = rbytes(rng, rng.randrange(0, 6))
+        raw = rng.random() < 0.3
+        ops.append(('ser.raw %d %s' % (rng.randrange(8, 40), rng.choice('bl'))) if raw else ('ser.vec %s %s' % (hx(init), rng.choice('bl'))))
+        pos = 0
+        for _ in range(rng.randrange(2, 7)):
+            if pos == 0 or rng.random() < 0.4:
+                b = rbytes(rng, rng.randrange(1, 6)); ops.append('ser.bytes %s' % hx(b)); pos += len(b)      # raw mode may refuse: then off + k > pos is a bad-op on both sides
+            else:
+                off = rng.randrange(0, pos + 1); kk = rng.randrange(0, pos - off + 1)
+                r = rng.choice([1, 1, 1, 0])
+                ops.append('ser.self %d %d %d' % (off, kk, r))
+                if r == 1 and not raw: pos += kk
+
+
 # ------------------------------------------------------------------------------------------ long inputs (round 9, lesson h)
 # Every loop of the anchored files that accumulates into a fixed-width variable is driven with inputs long enough to make an
 # accumulator of the next narrower plausible width wrap: 2^16±k, 2^17±k (131070..131080), 2^20 and 2^24 bytes of saturating
@@ -1062,6 +1143,8 @@ def gen(rng, tier):
         yield c
     for c in gen_state_derived(tier):
         yield c
+    for c in gen_alias(tier):
+        yield c
     for c in gen_long(rng, tier):
         yield c
     vals = si_values(rng)
@@ -1090,7 +1173,7 @@ def gen(rng, tier):
         for b0 in range(0, 256, 16):
             yield ['url.rt %02x 0' % b for b in range(b0, b0 + 16)] + ['url.enc %02x 1' % b for b in range(b0, b0 + 16)] + \
                   ['hex.rt %02x 1 -' % b for b in range(b0, b0 + 16)] + ['url.dec 25%02x41' % b for b in range(b0, b0 + 16)]
-    gens = [gen_b64, gen_b64, lambda r, o: gen_si(r, o, vals), gen_hex, gen_ser, gen_ser, gen_crc, gen_url, gen_md5, gen_aes, gen_misc, gen_hist]
+    gens = [gen_b64, gen_b64, lambda r, o: gen_si(r, o, vals), gen_hex, gen_ser, gen_ser, gen_crc, gen_url, gen_md5, gen_aes, gen_misc, gen_hist, gen_alias_random]
     for _ in range(n):
         ops = []
         for _ in range(rng.choice([1, 2, 4, 8])):
@@ -1106,7 +1189,7 @@ NT_TAGS = ('b64-cap-exact', 'b64-cap-short', 'b64-invalid-char', 'b64-hi-byte', 
            'des-int', 'ser-int', 'url-dec-exc', 'url-dec-escapes', 'md5-pieces2', 'md5-pieces3', 'md5-pieces4', 'md5-pieces5',
            'md5-pieces6', 'md5-pieces7', 'md5-pieces8', 'md5-pieces9', 'md5-len-mod64-ge56',
            'b64-cstr', 'b64-append', 'des-check-', 'ser-big', 'crc-chain-', 'url-host-', 'url-mkhost-', 'md5-seq-', 'aes-seq-',
-           'aes-hist-', 'aes-rekey-', 'url-host2-', 'crc-seq-', 'si-buf-', 'md5-two-', 'b64-dec2', 'ser-view', 'long-', 'aes-unkeyed')
+           'aes-hist-', 'aes-rekey-', 'url-host2-', 'crc-seq-', 'si-buf-', 'md5-two-', 'b64-dec2', 'ser-view', 'long-', 'aes-unkeyed', 'b64-ip-', 'ser-self-')
 
 
 def nontrivial(ops, model_lines):
